@@ -28,6 +28,8 @@ limitations under the License.
 
 #include "reset_handle.h"
 
+#include <photon/common/verif-hooks.h>
+
 namespace photon {
 #ifndef EPOLLRDHUP
 #define EPOLLRDHUP 0
@@ -119,6 +121,9 @@ public:
                     cool_down_ms *= 2;
                     continue;
                 }
+#ifdef PHOTON_VERIF
+                if (ret == (int)LEN(events)) VERIF_COV(C_EPOLL_BATCH_FULL);
+#endif
                 remains += ret;
                 return;
             }
@@ -295,6 +300,7 @@ public:
         int ret = add_interest(event);
         if (ret < 0) LOG_ERROR_RETURN(0, -1, "failed to add event interest");
         SCOPED_PAUSE_WORK_STEALING;
+        VERIF_COV(C_EPOLL_WAIT_FD);
         ret = thread_usleep(timeout);
         ERRNO err;
         if (ret == -1 && err.no == EOK) {
